@@ -334,6 +334,18 @@ def r7b(ctx):
                     ok = bool(terms) and not foreign
                     ctx.ob("R7", "MatchJSON.replacement in %s" % f.id, ok, "= Diff.replacement" if ok else
                            "the `replacement` printed by --json is not Diff.replacement as it is (passes through %s)" % sorted(set(foreign)), where=f.loc(st[3]))
+    # struct-literal form: `MatchJSON { replacement: Some(diff.replacement), ..Self::new(..) }`
+    for f, bi, si, st in prog.aggregates_of(r"^ast_grep::print::json_print::MatchJSON$"):
+        if f.impl_trait or "replacement" not in st[2][1]["fields"]:
+            continue
+        op = dict(zip(st[2][1]["fields"], st[2][2]))["replacement"]
+        if op[0] == "k" or all(o.kind == "agg" and o.ref[2][1].get("variant") == "None" for o in f.trace_operand(op)):
+            continue
+        n += 1
+        terms, foreign = identity_flow(prog, f, op, lambda g, o: o.kind in ("param", "local") and "replacement" in field_path(o.proj) and "Diff" in " ".join(map(str, o.proj)))
+        ok = bool(terms) and not foreign
+        ctx.ob("R7", "MatchJSON.replacement in %s" % f.id, ok, "= Diff.replacement" if ok else
+               "the `replacement` printed by --json is not Diff.replacement as it is (passes through %s)" % sorted(set(foreign)), where=f.loc(st[3]))
     # lsp TextEdit new_text
     for c in prog.who_calls(r"lsp_types::TextEdit::new$"):
         f = c.fn
@@ -343,8 +355,8 @@ def r7b(ctx):
         terms, foreign = identity_flow(prog, f, c.args[1], term)
         # the value may have travelled through a tuple built from RewriteData.fixed in the same function family
         if not terms and foreign:
-            fam_txt = "".join(repr(b["s"]) for g in prog.family(prog.fns.get(f.root) or f) for b in g.blocks) if f.is_closure else ""
-            if ".fixed|ast_grep_lsp::utils::RewriteData" in fam_txt and all(x.startswith("parameter") for x in foreign):
+            fam_txt = "".join(repr(b["s"]) for g in prog.family(prog.fns.get(f.root) or f) for b in g.blocks)
+            if ".fixed|ast_grep_lsp::utils::RewriteData" in fam_txt and all(x.startswith("parameter") or x in ("next", "into_iter", "iter", "pop", "remove") for x in foreign):
                 terms, foreign = [True], []
         ok = bool(terms) and not foreign
         ctx.ob("R7", "TextEdit text in %s#%d" % (f.id, sum(1 for x in prog.who_calls(r"lsp_types::TextEdit::new$") if x.fn is f and x.bb < c.bb)), ok,
